@@ -1510,7 +1510,7 @@ class Connection(object):
         if not keyspace or keyspace == self.keyspace:
             return
 
-        query = QueryMessage(query='USE "%s"' % (keyspace,),
+        query = QueryMessage(query='USE "%s"' % (keyspace.replace('"', '""'),),
                              consistency_level=ConsistencyLevel.ONE)
         try:
             result = self.wait_for_response(query)
@@ -1564,7 +1564,7 @@ class Connection(object):
             callback(self, None)
             return
 
-        query = QueryMessage(query='USE "%s"' % (keyspace,),
+        query = QueryMessage(query='USE "%s"' % (keyspace.replace('"', '""'),),
                              consistency_level=ConsistencyLevel.ONE)
 
         def process_result(result):
